@@ -197,3 +197,85 @@ class ScriptEngine:
             k += 1
         rec["success"] = success
         return success, status
+
+
+class Line:
+    """a symbolic bi-infinite order-parameter sequence (deterministic, time-reversible dynamics)."""
+
+    def __init__(self, ctx, name):
+        self.ctx, self.name = ctx, name
+
+    def q(self, t):
+        return self.ctx.real(f"{self.name}.q{t}".replace("-", "m"))
+
+    def frame(self, t, d=1, vel_rev=False, level=None, energies=None):
+        s = mk_system(self.q(t), tag=(self.name, t), config=(f"{self.name}.traj", t), vel_rev=vel_rev)
+        s.line, s.t, s.d = self, t, d
+        if energies is not None:
+            s.vpot = energies.v(level, self.name, t)
+            s.ekin = 0.0
+        return s
+
+
+class Energies:
+    def __init__(self, ctx):
+        self.ctx = ctx
+
+    def v(self, level, line, t):
+        return self.ctx.real(f"V{level}.{line}.{t}".replace("-", "m"))
+
+
+class LineEngine:
+    """deterministic time-reversible engine: walks along the Line the phase point lives on, through the real add_to_path.
+    actual velocity direction of a phase point is system.d (+1/-1 in line index); propagate(reverse=True) walks against it."""
+
+    order_function = None
+
+    def __init__(self, ctx, level, budget, energies=None, beta=None):
+        self.ctx, self.level, self.budget, self.energies = ctx, level, budget, energies
+        self._beta = beta
+        self.calls = []
+        self.propagations = 0
+        self.seg = 0
+        self.rgen = None
+
+    @property
+    def beta(self):
+        return self._beta
+
+    def set_mdrun(self, pens):
+        self.calls.append("set_mdrun")
+
+    def clean_up(self):
+        self.calls.append("clean_up")
+
+    def dump_phasepoint(self, phasepoint, deffnm="conf"):
+        phasepoint.set_pos((f"{self.level}/{deffnm}", 0))
+        phasepoint.dumped = deffnm
+
+    def propagate(self, path, ens_set, system, reverse=False):
+        from infretis.classes.engines.enginebase import EngineBase
+        left, _, right = ens_set["interfaces"]
+        self.propagations += 1
+        self.seg += 1
+        step = -system.d if reverse else system.d
+        success, status = False, "line"
+        k = 0
+        while True:
+            if k > self.budget:
+                self.ctx.note("line-budget-exhausted")
+                self.ctx.assume(False)
+            p = system.copy()
+            p.t = system.t + k * step
+            p.order = [system.line.q(p.t)]
+            p.vel_rev = reverse
+            p.config = (f"{self.level}/traj{self.seg}", k)
+            p.tag = (system.line.name, p.t)
+            if self.energies is not None:
+                p.vpot = self.energies.v(self.level, system.line.name, p.t)
+                p.ekin = 0.0
+            status, success, stop, add = EngineBase.add_to_path(path, p, left, right)
+            if stop:
+                break
+            k += 1
+        return success, status
